@@ -20,7 +20,7 @@ from vlib.snap import snapshot, diff
 from vlib.lang import dialects
 from vlib.lang.core import IllFormed, NotUnderstood, Indeterminate, Modifies, Closure
 from vlib.rhist import INDEXTYPES
-from checks.c06 import doc_tables, check_foreign_result, squeeze, layout, run_python_family, exact_equal
+from checks.c06 import doc_tables, check_foreign_result, squeeze, layout, run_python_family, exact_equal, NAMES
 
 PROPERTY = 'C07'
 LEVEL = 'exploration'
@@ -189,9 +189,20 @@ def _execute(ctx, spec):
         out.cls('large-array:>' + spec['large'])
     ks = list(range(n)) if n <= 64 else sorted(set(list(range(8)) + list(range(n - 8, n)) + [n // 2, n // 3, (2 * n) // 3 + 1]))
     with ctx.scratch() as d:
-        root, apath, other = layout(d)
+        names = None if (spec.get('via') or spec.get('relopen')) else spec.get('names')
+        root, apath, other = layout(d, names)
         ra, items = make_ragged(spec, apath)
-        basepath = 'data/x.darr'
+        basepath = '/'.join(NAMES[names])
+        bparg = basepath
+        if names:
+            out.cls('path:unusual-directory-names')
+        bp = None if (spec.get('via') or spec.get('relopen')) else spec.get('bp')
+        if bp and pm == 'base':
+            # the base path is the directory of the ragged array itself, written as '' / '.' / './' / Path('') / Path('.')
+            out.cls('basepath:current-directory:' + bp)
+            import pathlib as _pl
+            basepath = '.'
+            bparg = {'empty': '', 'dot': '.', 'dotslash': './', 'emptypath': _pl.Path(''), 'dotpath': _pl.Path('.')}[bp]
         if spec.get('relopen'):
             # the handle is opened through a RELATIVE path; the generated code must not depend on the working directory it was generated in
             out.cls('handle-opened-by-relative-path')
@@ -216,9 +227,9 @@ def _execute(ctx, spec):
                 ra = darr.RaggedArray(os.path.join(other, 'deep', 'sl', '..', 'x.darr'))
             if spec.get('seed', 1) % 4 == 3 or spec.get('positional'):
                 out.cls('call:positional-arguments')
-                code = ra.readcode(lang, pm == 'abs', basepath if pm == 'base' else None)
+                code = ra.readcode(lang, pm == 'abs', bparg if pm == 'base' else None)
             else:
-                code = ra.readcode(lang, abspath=(pm == 'abs'), basepath=(basepath if pm == 'base' else None))
+                code = ra.readcode(lang, abspath=(pm == 'abs'), basepath=(bparg if pm == 'base' else None))
         want_offer = offered_by_docs(lang, vt, itp)
         if (code is not None) != want_offer:
             out.viol('offer-rule-mismatch', f'{lang}:{vt}:{itp}', f'code is {"offered" if code is not None else "withheld"} for values {vt} / indices {itp}; '
@@ -232,8 +243,20 @@ def _execute(ctx, spec):
             out.nontrivial = False
             return out
         out.cls('offered')
-        cwd = {'rel': apath, 'base': root, 'abs': other}[pm]
+        cwd = {'rel': apath, 'base': apath if (bp and pm == 'base') else root, 'abs': other}[pm]
         tag = f"{lang}:atomrank{len(atom)}" + (':complex' if vt.startswith('complex') else '')
+        if spec.get('legacy') and not spec.get('churn'):
+            # a directory as earlier versions of the library wrote it: the top-level description has no 'darrobject' entry.  The
+            # library opens such a directory; running the generated code (which may open it, too) must leave every file as it is
+            out.cls('legacy-description-without-darrobject')
+            import json as _json
+            for sub_ in ('', 'values', 'indices'):
+                dp = os.path.join(apath, sub_, 'arraydescription.json')
+                with open(dp) as f_:
+                    dj = _json.load(f_)
+                dj.pop('darrobject', None)
+                with open(dp, 'w') as f_:
+                    _json.dump(dj, f_, sort_keys=True, indent=4)
         before = snapshot(apath)
         origin = ORIGIN[lang]
         # ---- example statement: ordinal word, k value and index origin must agree and name an existing subarray
@@ -399,6 +422,17 @@ def large_specs(thorough):
             yield {'lang': lang, 'vt': 'uint8', 'it': 'uint32', 'atom': [], 'lens': [2 ** 27, 0, 9], 'bo': '<', 'pm': 'rel', 'seed': 1, 'large': '128MiB'}
 
 
+def path_specs():
+    for lang in LANGS:
+        for pm in ('rel', 'abs'):
+            yield {'lang': lang, 'vt': 'int32', 'it': 'int64', 'atom': [2], 'lens': [2, 0, 1], 'bo': '<', 'pm': pm, 'seed': 2, 'legacy': True}
+        for bp in ('empty', 'dot', 'dotslash', 'emptypath', 'dotpath'):
+            yield {'lang': lang, 'vt': 'int16', 'it': 'int32', 'atom': [2], 'lens': [1, 0, 2], 'bo': '<', 'pm': 'base', 'seed': 2, 'bp': bp}
+        for names in ('unicode', 'space-dash', 'cjk'):
+            for pm in ('rel', 'base', 'abs'):
+                yield {'lang': lang, 'vt': 'float32', 'it': 'int64', 'atom': [], 'lens': [2, 0, 1], 'bo': '>', 'pm': pm, 'seed': 2, 'names': names}
+
+
 @st.composite
 def st_spec(draw):
     atom = [draw(st.integers(1, 3)) for _ in range(draw(st.integers(0, 3)))]
@@ -408,7 +442,9 @@ def st_spec(draw):
     return {'lang': draw(st.sampled_from(LANGS)), 'vt': draw(st.sampled_from(NUMTYPES)), 'it': draw(st.sampled_from(INDEXTYPES)), 'atom': atom,
             'lens': lens, 'bo': draw(st.sampled_from('<>')), 'pm': draw(st.sampled_from(['rel', 'base', 'abs'])), 'seed': draw(st.integers(0, 2 ** 20)),
             'churn': draw(st.sampled_from([False, False, True, 'trunc-last', 'ask-append-empties-ask', 'ask-trunc-empties-ask', 'ask-during-iterappend'])),
-            'relopen': draw(st.booleans()), 'via': draw(st.sampled_from([None, None, None, 'symlink-dotdot']))}
+            'relopen': draw(st.booleans()), 'via': draw(st.sampled_from([None, None, None, 'symlink-dotdot'])),
+            'names': draw(st.sampled_from([None, None, None, 'unicode', 'space-dash', 'cjk'])), 'bp': draw(st.sampled_from([None, None, None, None, 'empty', 'dot', 'dotslash', 'emptypath', 'dotpath'])),
+            'legacy': draw(st.sampled_from([False, False, False, True]))}
 
 
 def task_enum(ctx, col, shard, stride):
@@ -417,6 +453,7 @@ def task_enum(ctx, col, shard, stride):
     enum_search(ctx, col, (s for i, s in enumerate(specs) if i % NSHARDS == shard), lambda s: execute(ctx, s))
     if shard == 0:
         enum_search(ctx, col, extra_specs(), lambda s: execute(ctx, s))
+    enum_search(ctx, col, (s for i, s in enumerate(path_specs()) if i % NSHARDS == shard), lambda s: execute(ctx, s))
     enum_search(ctx, col, (s for i, s in enumerate(large_specs(stride == 1)) if i % NSHARDS == shard), lambda s: execute(ctx, s))
 
 
